@@ -360,6 +360,18 @@ def _build_registry():
     E("RadioIP.from_bytes", lambda d: L("hytera.pdu.radio_ip:RadioIP").from_bytes(d), "bytes:4")
     # Motorola
     E("MBXML.from_bytes", lambda d: L("motorola.mbxml:MBXML").from_bytes(d), "vecm")
+    E("MBXML.from_bytes(debug)", lambda d, dbg: _quiet(lambda: L("motorola.mbxml:MBXML").from_bytes(d, debug=dbg)), "vecm", "bool")
+    for _nm, _path, _spec in (("HSTRP", "hytera.pdu.hstrp:HSTRP", "vecp:3242"), ("HRNP", "hytera.pdu.hrnp:HRNP", "vecp:7e"), ("HDAP", "hytera.pdu.hdap:HDAP", "vecp:02|08|09|11|82|88|89|91"),
+                              ("TextMessagingService", "motorola.text_messaging_service:TextMessagingService", "vect"),
+                              ("AutomaticRegistrationService", "motorola.automatic_registration_service:AutomaticRegistrationService", "veca"),
+                              ("RadioIP", "hytera.pdu.radio_ip:RadioIP", "bytes:4")):
+        E(f"{_nm}.from_bytes(endian)", (lambda p: lambda d, le: L(p).from_bytes(d, endian="little" if le else "big"))(_path), _spec, "bool")
+    # direct construction with the Union[int, bitarray] / Union[bytes, bitarray] parameters given as caller-owned bitarrays
+    for _nm, _mod, _n in (("Rate12Data", "etsi.layer2.pdu.rate12_data", (10, 6)), ("Rate34Data", "etsi.layer2.pdu.rate34_data", (16, 12)), ("Rate1Data", "etsi.layer2.pdu.rate1_data", (22, 18))):
+        E(f"{_nm}(bitarray dbsn, crc9)", (lambda m, n, nn: lambda data, dbsn, crc9, last: _rate_ctor(m, n, nn, data, dbsn, crc9, last))(_mod, _nm, _n),
+          "bits:176", "bits:7", "bits:9", "bool")
+    E("ShortLinkControl(bitarray fields)", lambda crc, a1, a2: _slc_ctor(crc, a1, a2), "bits:8", "bits:8", "bits:8")
+    E("DataHeader(bitarray crc)", lambda crc, a: _dh_ctor(crc, a), "bits:16", "int:0:127")
     E("MBXML.from_bytes->as_bytes", lambda d: [L("motorola.mbxml:MBXML").as_bytes(x) for x in L("motorola.mbxml:MBXML").from_bytes(d)], "vecm")
     E("MBXML.write_uintvar", lambda a: L("motorola.mbxml:MBXML").write_uintvar(a), "int:0:4294967295")
     E("MBXML.read_uintvar", lambda d: L("motorola.mbxml:MBXML").read_uintvar(d, 0), "bytes:1-6")
@@ -439,6 +451,38 @@ def _fresh_storage(a):
     r = st.match_incoming(addr, auto_create=True, patch={"callsign": "OK%d" % a, "k": a})
     r2 = st.match_incoming(addr)
     return [len(st), r is r2, r.callsign, r.attr("k"), r.dmr_id, r.address_in]
+
+
+def _quiet(f):
+    import io
+    import sys
+
+    old = sys.stdout
+    sys.stdout = io.StringIO()
+    try:
+        return f()
+    finally:
+        sys.stdout = old
+
+
+def _rate_ctor(mod, name, nbytes, data, dbsn, crc9, last):
+    cls = L(f"{mod}:{name}")
+    tps = L(f"{mod}:{name}Types")
+    n = nbytes[1] if last else nbytes[0]
+    return cls(data=data[: n * 8], packet_type=tps.ConfirmedLastBlock if last else tps.Confirmed, dbsn=dbsn, crc9=crc9, crc32=b"\x01\x02\x03\x04" if last else 0)
+
+
+def _slc_ctor(crc, a1, a2):
+    SLC = L("etsi.layer2.pdu.short_link_control:ShortLinkControl")
+    A = L("etsi.layer3.elements.activity_id:ActivityID")
+    return SLC(slco=L("etsi.layer2.elements.slcos:SLCOs").ActivityUpdate, crc_8bit=crc, ts1_activity_id=list(A)[1], ts2_activity_id=list(A)[2], ts1_address=a1, ts2_address=a2)
+
+
+def _dh_ctor(crc, a):
+    DH = L("etsi.layer2.pdu.data_header:DataHeader")
+    return DH(dpf=L("etsi.layer2.elements.data_packet_formats:DataPacketFormats").DataPacketUnconfirmed, crc=crc, blocks_to_follow=a,
+              sap_identifier=L("etsi.layer2.elements.sap_identifier:SAPIdentifier").ShortData, full_message_flag=L("etsi.layer2.elements.full_message_flag:FullMessageFlag")(1),
+              llid_source=a, llid_destination=a + 1, fragment_sequence_number=0)
 
 
 def _dh_default(a):
